@@ -18,6 +18,7 @@ use crate::stream::StepObs;
 use crate::stream::Totals;
 use crate::util;
 
+#[allow(dead_code)]
 pub const LEGACY: [&str; 3] = ["aes-128-gcm", "aes-256-gcm", "chacha20-poly1305"];
 pub const C2022: [&str; 4] = ["2022-blake3-aes-128-gcm", "2022-blake3-aes-256-gcm", "2022-blake3-chacha8-poly1305", "2022-blake3-chacha20-poly1305"];
 pub const VMESS: [&str; 2] = ["aes-128-gcm", "chacha20-poly1305"];
@@ -217,31 +218,43 @@ pub fn replay(args: &[String]) -> anyhow::Result<()> {
     Ok(())
 }
 
-fn layout_line(fx: &Fixture, adapter: &str) -> Value {
+pub fn layout_line(fx: &Fixture, adapter: &str, bad_from: usize) -> Value {
     json!({"ev": "Reset", "proto": fx.proto, "adapter": adapter,
         "fields": fx.fields.iter().map(|f| json!({"len": f.len, "plain": f.plain, "group": f.group, "raw": f.raw, "dgram": f.name == "dgram"})).collect::<Vec<_>>(),
-        "hs": if fx.datagram_mode { -1 } else { fx.hs_group }, "datagram": fx.datagram_mode, "exempt": fx.exempt_first})
+        "hs": if fx.datagram_mode { -1 } else { fx.hs_group }, "datagram": fx.datagram_mode, "exempt": fx.exempt_first,
+        "enc": !fx.proto.starts_with("trojan"), "badFrom": bad_from, "stop0": fx.exempt_first > 0})
 }
 
-/// Write one run (Reset, then Deliver/Quiet pairs) and return whether the harness's own judgement was clean.
+/// Write one run (Reset, then Deliver/Quiet pairs, optionally Eof/Quiet) and return the harness's own judgement.
 pub fn record_run(w: &mut impl Write, fx: &mut Fixture, adapter: &str, offsets: &[usize]) -> anyhow::Result<Vec<String>> {
-    writeln!(w, "{}", layout_line(fx, adapter))?;
+    writeln!(w, "{}", layout_line(fx, adapter, 0))?;
     let segs = stream::cut(&fx.wire, offsets);
     let (steps, arrived, first) = run_cuts(fx, adapter, offsets);
+    write_steps(w, fx, &segs, &steps, false)?;
+    Ok(judge(fx, &steps, &arrived, first))
+}
+
+/// Deliver/Quiet (and Eof/Quiet) events of a run. `steps` has one more entry than `segs` when `eof`.
+pub fn write_steps(w: &mut impl Write, fx: &Fixture, segs: &[Vec<u8>], steps: &[StepObs], eof: bool) -> anyhow::Result<()> {
     let mut t = Totals::default();
-    let mut failed = false;
+    let mut dead = false;
     for (j, o) in steps.iter().enumerate() {
-        if failed {
+        if dead {
             break;
         }
         t.absorb(o);
         let plain: usize = if fx.datagram_mode { t.datagrams.iter().map(|d| d.0.len()).sum() } else { t.plain.len() };
-        failed = o.err.is_some() || o.panic.is_some();
-        writeln!(w, "{}", json!({"ev": "Deliver", "k": segs[j].len()}))?;
+        dead = o.err.is_some() || o.panic.is_some() || o.ended;
+        if j < segs.len() {
+            writeln!(w, "{}", json!({"ev": "Deliver", "k": segs[j].len()}))?;
+        } else if eof {
+            writeln!(w, "{}", json!({"ev": "Eof"}))?;
+        }
         writeln!(w, "{}", json!({"ev": "Quiet", "plain": plain, "items": t.datagrams.len(), "connect": t.connects > 0 && !fx.datagram_mode,
-            "failed": o.err.is_some(), "panicked": o.panic.is_some(), "detail": o.err.clone().or(o.panic.clone()).unwrap_or_default()}))?;
+            "failed": o.err.is_some(), "panicked": o.panic.is_some(), "ended": o.ended && o.err.is_none(),
+            "detail": o.err.clone().or(o.panic.clone()).unwrap_or_default()}))?;
     }
-    Ok(judge(fx, &steps, &arrived, first))
+    Ok(())
 }
 
 pub fn record(args: &[String]) -> anyhow::Result<()> {
